@@ -43,6 +43,9 @@ def main():
     for f in sorted(os.listdir(d)):
         if f.endswith(".diff"):
             jobs.append((f[:-5], os.path.join(d, f)))
+    flt = os.environ.get("MATRIX_FILTER", "")
+    if flt:
+        jobs = [j for j in jobs if re.match(flt, j[0])]
     print("change\tcaught_by\tnot_caught_by\tmachinery_errors", flush=True)
     for name, patch in jobs:
         rc, o = sh(["git", "apply", patch], REPO)
